@@ -25,7 +25,10 @@ class Scn:
         self.pos = {}      # r -> SET of offsets the client may have reached in request r (small requests can share leading bytes: every reading is kept)
 
     def start(self):
-        self.s.cmd("TNEW 100000 100000 100000")
+        # every other scenario has a short send timeout and a moving clock: queued requests may expire (unwritten: they just fail; partially written:
+        # the connection goes with them) -- TcpStream.tla ExpireUnwritten / ExpirePartial
+        self.timed = (self.rng.random() < 0.5)
+        self.s.cmd("TNEW %d 100000 100000" % (3 if self.timed else 100000))
         self.s.conn_open = False; self.s.conn_no = 0
         self.ev.append(dict(e="TNew"))
 
@@ -104,7 +107,9 @@ class Scn:
 
     def step(self):
         rng = self.rng
-        a = rng.choices(["add", "srv", "chunks", "caps", "poll", "peer", "disp"], weights=[3, 5, 3, 2, 1, 0.4, 7])[0]
+        a = rng.choices(["add", "srv", "chunks", "caps", "poll", "peer", "disp", "tick"], weights=[3, 5, 3, 2, 1, 0.4, 7, 1.5 if getattr(self, "timed", False) else 0])[0]
+        if a == "tick":
+            self.s.cmd("TICK %d" % rng.choice([1, 2, 4])); return
         if a == "add":
             self.add()
         elif a == "srv":
@@ -188,6 +193,8 @@ def validate(chk, events, starts, logs, label):
 
 
 def directed(sc, plan):
+    if plan[2].startswith("timeout"):     # needs a finite send timeout: restart the client with one
+        sc.s.cmd("TNEW 3 100000 100000"); sc.timed = True
     """the model's fault-at-every-offset family on the real client: a request of L bytes is cut after K bytes by a would-block, then the
     connection ends in one of the ways TcpStream.tla has an action for; the rest must travel whole on a fresh connection"""
     L, K, fault, second = plan
@@ -203,6 +210,10 @@ def directed(sc, plan):
         sc.s.cmd("POLL " + fault)
     elif fault == "epipe":
         sc.s.cmd("SENDCAPS -1")
+    elif fault == "timeout":              # the partially written request's send timeout elapses while the socket is writable again
+        sc.s.cmd("SENDCAPS"); sc.s.cmd("TICK 5")
+    elif fault == "timeout-unwritable":   # ... or while the socket stays unwritable
+        sc.s.cmd("POLL noout"); sc.s.cmd("TICK 5")
     sc.dispatch()
     sc.s.cmd("POLL ready"); sc.s.cmd("SENDCAPS")
     for _ in range(3):
@@ -351,7 +362,7 @@ def run(chk, tier, seed):
     total = 0
     Ls = [6] if tier == "quick" else [2, 3, 6, 9, 300]
     total += blocking_client(chk, exe, rng, tier)
-    plans = [(L, K, f, sec) for L in Ls for K in sorted({1, 2, L // 2, L - 1} - {0, L}) for f in ("closed", "reset", "hup", "err", "epipe") for sec in (0, 3)]
+    plans = [(L, K, f, sec) for L in Ls for K in sorted({1, 2, L // 2, L - 1} - {0, L}) for f in ("closed", "reset", "hup", "err", "epipe", "timeout", "timeout-unwritable") for sec in (0, 3)]
     total += random_group(chk, exe, rng, 0, 0, "directed", plans=plans)
     for g in range(2 if tier == "quick" else 6):
         total += random_group(chk, exe, rng, nscen // 2 if tier == "quick" else nscen // 6, steps, "g%d" % g)
